@@ -48,8 +48,63 @@ def revert_family(rng, n):
     return out
 
 
+def resource_comparisons(ctx):
+    """resource-level comparisons (`resources > {...}` etc.) are conditions too: their truth value must be the
+    element-wise comparison of the current levels and `~c` must be its negation -- checked for all six operators
+    around the boundary, on Resources with one and with two named resources (direct API, independent evaluation).
+    Known finding D22: with >= 2 named resources `~(levels OP bound)` is the inverse operator applied element-wise,
+    which is not the negation when the elements disagree."""
+    import operator
+    import usim
+    ops = {'lt': operator.lt, 'le': operator.le, 'eq': operator.eq, 'ne': operator.ne, 'ge': operator.ge, 'gt': operator.gt}
+    bad = []
+
+    async def probe():
+        for keys in (('a',), ('a', 'b')):
+            for a in range(0, 4):
+                for b in (range(0, 3) if len(keys) == 2 else [0]):
+                    lv = dict(a=a, b=b) if len(keys) == 2 else dict(a=a)
+                    res = usim.Resources(**lv)
+                    for name, op in ops.items():
+                        for x in range(0, 4):
+                            for y in (range(0, 3) if len(keys) == 2 else [0]):
+                                bound = dict(a=x, b=y) if len(keys) == 2 else dict(a=x)
+                                cond = op(res, bound)
+                                elems = [op(lv[k], bound[k]) for k in keys] if name != 'ne' else None
+                                exp = all(elems) if name != 'ne' else not all(lv[k] == bound[k] for k in keys)
+                                case = {'levels': lv, 'op': name, 'bound': bound}
+                                ctx.evaluations += 1
+                                if bool(cond) != exp:
+                                    bad.append((case, 'bool(resources %s %r) is %r, expected %r' % (name, bound, bool(cond), exp), None))
+                                try:
+                                    inv = ~cond
+                                except Exception as e:      # noqa
+                                    bad.append((case, '~ raised %r' % e, None))
+                                    continue
+                                if bool(inv) != (not bool(cond)):
+                                    mixed = elems is not None and any(elems) != all(elems) or \
+                                        (elems is not None and not any(elems) and
+                                         not all({'lt': operator.ge, 'ge': operator.lt, 'gt': operator.le, 'le': operator.gt}[name](lv[k], bound[k]) for k in keys))
+                                    finding = 'D22' if (len(keys) >= 2 and name in ('lt', 'le', 'ge', 'gt')) else None
+                                    bad.append((case, 'bool(~(resources %s %r)) is %r although bool(condition) is %r'
+                                                % (name, bound, bool(inv), bool(cond)), finding))
+        await usim.instant
+    usim.run(probe())
+    shown = set()
+    for case, expl, finding in bad:
+        if finding in shown:
+            continue
+        if finding is not None:
+            shown.add(finding)
+        ctx.fail(case, expl, finding=finding, family='resource-comparisons')
+        if finding is None and len([1 for x in bad if x[2] is None]) > 5:
+            break
+    ctx.extra['resource_comparisons_checked'] = True
+
+
 def run(ctx):
     machine_prop.run(ctx, FAMILIES, MONITORS, extra_scenarios=revert_family(ctx.rng, ctx.n(80, 1500)))
+    resource_comparisons(ctx)
 
 
 def search(ctx):
